@@ -93,3 +93,41 @@ Theorem end_marker_without_headers :
     events_of (h3_run all_fixed ex_hdrs (conn_init false true) tr) = [H3Parse.EData 0 None [] true].
 Proof. exact end_marker_without_headers_proof. Qed.
 Print Assumptions end_marker_without_headers.
+From AQ Require Import proofs.H3EventsAbs.
+Theorem handler_refines_stream_model_data : forall hdrs fx O client d st ended,
+  abs_hres hdrs (handle_rp_frame fx O client 0 (Some d) st ended) = Some (handle_data (abs_state st) (Zlen d) ended).
+Proof. exact handler_refines_data. Qed.
+Print Assumptions handler_refines_stream_model_data.
+Theorem handler_refines_stream_model_headers : forall hdrs fx Q client data st ended hid,
+  0 <= H3Parse.s_hstate st <= 2 -> (H3Parse.s_hstate st = 0 -> s_expect st = None) ->
+  (match data with Some d => o_dec Q (s_id st) d | None => o_resume Q (s_id st) end) = DHeaders hid ->
+  abs_hres hdrs (handle_rp_frame fx (with_validators hdrs Q) client 1 data st ended)
+  = Some (handle_headers client (abs_state st) (hdrs hid) ended).
+Proof. exact handler_refines_headers. Qed.
+Print Assumptions handler_refines_stream_model_headers.
+Theorem delivery_refines_ofin : forall hdrs fx Q client, fx_trunc fx = true -> forall st, at_op st ->
+  abs_rres hdrs (rq_recv fx (with_validators hdrs Q) client st [] true) = Some (stream_step client (abs_state st) OFin).
+Proof. exact sim_fin. Qed.
+Print Assumptions delivery_refines_ofin.
+Theorem delivery_refines_odatacont : forall hdrs fx Q client, fx_trunc fx = true ->
+  forall st r data fin, at_op st -> s_cur st = Some (0, r) -> 0 < r -> Zlen data <= r ->
+  abs_rres hdrs (rq_recv fx (with_validators hdrs Q) client st data fin)
+  = Some (stream_step client (abs_state st) (ODataCont (Zlen data) fin)).
+Proof. exact sim_data_cont. Qed.
+Print Assumptions delivery_refines_odatacont.
+Theorem delivery_refines_odatastart : forall hdrs fx Q client, fx_trunc fx = true ->
+  forall st data size payload fin, at_op st -> s_cur st = None ->
+  rq_hdr st data = Some (0, size, payload) -> is_nil data = false -> Zlen payload <= size ->
+  abs_rres hdrs (rq_recv fx (with_validators hdrs Q) client st data fin)
+  = Some (stream_step client (abs_state st) (ODataStart size (Zlen payload) fin)).
+Proof. exact sim_data_start. Qed.
+Print Assumptions delivery_refines_odatastart.
+Theorem delivery_refines_oheaders : forall hdrs fx Q client, fx_trunc fx = true ->
+  forall st data n block fin hid, at_op st -> s_cur st = None ->
+  0 <= H3Parse.s_hstate st <= 2 -> (H3Parse.s_hstate st = 0 -> s_expect st = None) ->
+  rq_hdr st data = Some (1, n, block) -> is_nil data = false -> Zlen block = n ->
+  o_dec Q (s_id st) block = DHeaders hid ->
+  abs_rres hdrs (rq_recv fx (with_validators hdrs Q) client st data fin)
+  = Some (stream_step client (abs_state st) (OHeaders (hdrs hid) fin)).
+Proof. exact sim_headers. Qed.
+Print Assumptions delivery_refines_oheaders.
